@@ -13,7 +13,7 @@ TECHNIQUE = "runtime monitoring: reference-model oracle (sliding_window_view / d
 LEVEL_TEXT = ("The real SlidingWindowTransformer / SequentialDifferenceTransformer are run on generated combinations that sit on the edges the "
               "property names (width = L, stride > L, pad > width, every form of window_sample, multivariate input); each output is compared "
               "value by value with an independent construction, and the sequence is passed as a view into a buffer surrounded by 1e300 "
-              "sentinels so that an out-of-range read shows up as a wrong value. Held = no violation on the executions produced.")
+              "sentinels so that an out-of-range read shows up as a wrong value; an estimator fitted on integer data is then applied to float data (and the reverse). Held = no violation on the executions produced.")
 LEVEL_NOTE = "Trusts numpy's sliding_window_view and float64 arithmetic; 'differences' is read as x[j+step]-x[j] for j=start,start+stride,... while j+step is inside the window."
 RULE = ("case = (sequence shape, width, stride, window_sample form, pad, kernel); non-trivial when the output has >= 2 windows or a "
         "non-default sample/kernel/pad; distinct = distinct (L, d, width, stride, sample, pad, kernel)")
